@@ -1022,6 +1022,24 @@ func c19RunCase(t *testing.T, c c19Case, r *vp.Rec) (err error) {
 			}
 		}
 		stallInfo += diag
+		if diag == "" {
+			// Every reader is done: describe a writer that is not.
+			for _, d := range x.dirs {
+				if d == nil {
+					continue
+				}
+				select {
+				case <-d.wdone:
+				default:
+					if d.wstarted {
+						stallInfo += "writer of " + d.name + " has not returned: " + x.diag(d)
+					}
+				}
+				if len(stallInfo) > 400 {
+					break
+				}
+			}
+		}
 		// Signature of the lost-FIN stall: some sender has all data acknowledged, its
 		// FIN recorded as sent but unacknowledged, and nothing in flight.
 		for _, d := range x.dirs {
@@ -1125,7 +1143,7 @@ func c19RunCase(t *testing.T, c c19Case, r *vp.Rec) (err error) {
 		}
 	}
 	if stalled {
-		return fmt.Errorf("stalled: application goroutines did not finish although every stream was delivered (faults applied: %v)", x.net.hurt)
+		return fmt.Errorf("stalled: application goroutines did not finish although every stream was delivered (faults applied: %v); %s", x.net.hurt, stallInfo)
 	}
 
 	// ---- classes
